@@ -1084,6 +1084,14 @@ func genProcs(repo, out string) {
 			protoMaps: map[string]string{"conn.AllowedProtocols": "conn", "other.AllowedProtocols": "other"},
 			stmts: map[string]string{"conn.AllowedProtocols = map[v1.Protocol]*PortSet{}": "conn := { conn with tcp := none, udp := none, sctp := none }",
 				"conn.addAllConns()": "conn ← addAllConns conn"}},
+		{file: "pkg/netpol/internal/common/connectionset.go", fn: "ConnectionSet.Equal", lean: "connSetEqual",
+			sig: "(conn other : ConnSet) : Except Err Bool", pure: true, loopElem: "Proto",
+			atoms:     map[string]string{"len(conn.AllowedProtocols)": "conn.numProtos", "len(other.AllowedProtocols)": "other.numProtos"},
+			protoMaps: map[string]string{"conn.AllowedProtocols": "conn", "other.AllowedProtocols": "other"}},
+		{file: "pkg/netpol/internal/common/connectionset.go", fn: "ConnectionSet.Copy", lean: "connSetCopy",
+			sig: "(conn : ConnSet) : Except Err ConnSet", pure: true,
+			atoms:     map[string]string{"MakeConnectionSet(false)": "(ConnSet.mk' false)"},
+			protoMaps: map[string]string{"conn.AllowedProtocols": "conn", "res.AllowedProtocols": "res"}},
 		{file: "pkg/netpol/internal/common/connectionset.go", fn: "ConnectionSet.ContainedIn", lean: "containedIn",
 			sig: "(conn other : ConnSet) : Except Err Bool", pure: true, loopElem: "Proto",
 			protoMaps: map[string]string{"conn.AllowedProtocols": "conn", "other.AllowedProtocols": "other"}},
@@ -1219,6 +1227,7 @@ func genProcs(repo, out string) {
 	var L strings.Builder
 	L.WriteString("import Netpol.Model.Cache\n/-! REGENERATED from the Go sources of /repo by /verif/tools/goextract (procs.go) on every run. Do not edit.\n" +
 		"Each definition is the statement-by-statement rewriting of one Go function into a `do` block over `Except Err`. -/\nnamespace Netpol.Gen.Procs\nopen Netpol\n\n" +
+		"/-- `len(conn.AllowedProtocols)` -/\ndef _root_.Netpol.ConnSet.numProtos (c : ConnSet) : Nat := (Proto.all.filter fun pr => (c.get pr).isSome).length\n\n" +
 		"/-- `string(rule.Action)`: the strings of `AdminNetworkPolicyRuleAction` (sigs.k8s.io/network-policy-api; third party) -/\ndef actionString : Action → String\n  | .Allow => \"Allow\"\n  | .Deny => \"Deny\"\n  | .Pass => \"Pass\"\n\n")
 	broken := []string{}
 	for i := range specs {
